@@ -187,6 +187,8 @@ class Module:
             if val is not None and not isinstance(val, str):
                 raise TypeError(f"Module name must be a string, not {val}")
             return super().__setattr__(key, val)
+        if not key:
+            raise RuntimeError(f"Cannot add {val} to Module {self} under the empty name")
         if _is_reserved(self, key):
             msg = f"Error attempting to over-write protected attribute {key} of Module {self}"
             raise RuntimeError(msg)
